@@ -90,7 +90,17 @@ def run_history_job(job):
         c0 = eng.nchecks
         dec = H.Decider(timeout_ms=opts.get('timeout_ms', 20000), seed=_W['seed'], cross_check=opts.get('cross_check', 0))
         per_step = [pid_ for pid_ in prop_ids if spec.get('per_step') and pid_ in P.PROPS]
-        trails = list(ST.run_history(sc, spec, ireq, final_all=bool(per_step)))
+        if per_step:
+            # reached-state templates are a bounded exploration on top of the complete one-step checks: at most this many histories each
+            cap = opts.get('history_cap', 600 if tier == 'quick' else 6000)
+            trails = list(ST.run_history(sc, spec, ireq, max_paths=cap, final_all=True, truncate=True))
+            if sc.shape.get('history_truncated'):
+                res['paths']['template_truncated_at_%d_histories' % cap] += 1
+        else:
+            cap = opts.get('history_cap_full', 1500 if tier == 'quick' else 12000)
+            trails = list(ST.run_history(sc, spec, ireq, max_paths=cap, truncate=True))
+            if sc.shape.get('history_truncated'):
+                res['paths']['template_truncated_at_%d_histories' % cap] += 1
         res['explore_s'] = time.time() - t0
         res['pruning_checks'] = eng.nchecks - c0
         budget = opts.get('witness_per_spec', 12)
@@ -125,7 +135,7 @@ def run_history_job(job):
                 req_l, funds_l, p_l = trail[-1]
                 view = ST.HistView(sc, ireq, trail[-2][2].world, funds_l)
                 for pid_ in per_step:
-                    hist_obs += [(pid_, ob) for ob in P.PROPS[pid_](view, req_l, p_l)]
+                    hist_obs += [(pid_, ob) for ob in P.STEP_PROPS_ON_REACHED_STATES.get(pid_, P.PROPS[pid_])(view, req_l, p_l)]
             for pid_, ob in hist_obs:
                 name = pid_ + ':' + ob.name
                 r, m = dec.check(pc + env + ob.neg, name)
